@@ -12,6 +12,9 @@ use crate::{features, utils};
 // https://git-scm.com/docs/git-config#Documentation/git-config.txt-diffmnemonicPrefix
 const DIFF_PREFIXES: [&str; 6] = ["a/", "b/", "c/", "i/", "o/", "w/"];
 
+/// Appended to the name of a binary file in the file header.
+pub const BINARY_FILE_SUFFIX: &str = " (binary file)";
+
 #[derive(Debug, PartialEq, Eq)]
 pub enum FileEvent {
     Added,
@@ -428,20 +431,30 @@ pub fn get_file_change_description_from_file_paths(
             plus_file
         )
     } else {
-        let format_file = |file| {
+        let format_file = |file: &str| {
+            // A binary file is marked by a suffix appended to its name (see
+            // handle_diff_header_misc_line); the suffix is not part of the path to link to.
+            let (file, suffix) = match file.strip_suffix(BINARY_FILE_SUFFIX) {
+                Some(file) => (file, BINARY_FILE_SUFFIX),
+                None => (file, ""),
+            };
             let formatted_file = if let Some(regex_replacement) = &config.file_regex_replacement {
                 regex_replacement.execute(file)
             } else {
                 Cow::from(file)
             };
             match (config.hyperlinks, utils::path::absolute_path(file, config)) {
-                (true, Some(absolute_path)) => features::hyperlinks::format_osc8_file_hyperlink(
-                    absolute_path,
-                    None,
-                    &formatted_file,
-                    config,
-                ),
-                _ => formatted_file,
+                (true, Some(absolute_path)) => Cow::from(format!(
+                    "{}{}",
+                    features::hyperlinks::format_osc8_file_hyperlink(
+                        absolute_path,
+                        None,
+                        &formatted_file,
+                        config,
+                    ),
+                    suffix
+                )),
+                _ => Cow::from(format!("{formatted_file}{suffix}")),
             }
         };
         match (minus_file, plus_file, minus_file_event, plus_file_event) {
